@@ -67,7 +67,8 @@ def dump_value(v):
         'value': v._value,
         'meta': meta,
     }
-    return json.dumps(data).replace('~', '\\u007e')  # never contains the packet delimiter
+    # default=str: the value of a failed event is the (type, exception, traceback) of the error
+    return json.dumps(data, default=str).replace('~', '\\u007e')  # never contains the packet delimiter
 
 
 def load_value(v):
